@@ -1,11 +1,11 @@
 #!/bin/sh
 # tools/seed_intake.sh <Cxx> <name> '<demo command run in the worktree>' [check ids…]
-# Confirms an independently written seeded change in its scratch worktree /tmp/mut/<Cxx>
+# Confirms an independently written seeded change in its scratch worktree $MUTBASE/<Cxx> (default /tmp/mut)
 # (patch compiles, baseline suite passes with it, demonstration fails with it and passes without),
 # runs our checks against it in /repo (apply, check, revert), and files it under seeded/<name>/.
 P=$1; NAME=$2; DEMO=$3; shift 3
 CHECKS=${*:-$P}
-W=/tmp/mut/$P
+W=${MUTBASE:-/tmp/mut}/$P
 ROOT=$(cd "$(dirname "$0")/.." && pwd)
 export CARGO_TARGET_DIR=$W/target
 cd $W || exit 2
